@@ -1022,10 +1022,15 @@ class Mask2D(Mask):
         value y value in scaled units.
         """
 
+        zoom_offset_scaled = self.zoom_offset_scaled
+
         return Mask2D.all_false(
             shape_native=self.zoom_shape_native,
             pixel_scales=self.pixel_scales,
-            origin=self.zoom_offset_scaled,
+            origin=(
+                self.origin[0] + zoom_offset_scaled[0],
+                self.origin[1] + zoom_offset_scaled[1],
+            ),
         )
 
     @property
